@@ -326,8 +326,24 @@ async fn life(out: &mut Out, rng: &mut Rng, cfg: &ACfg, g: &AGenOpts) {
     let bufcap = verif::async_cache_buffer_cap(&c);
     let (eff_counters, eff_ring) = verif::async_cache_effective_sizes(&c);
     let snap0 = verif::async_cache_snapshot(&c, |v| *v);
+    let plain = format!(
+        "bufsize:{};items:{};metrics:{};ignore:{};cleanup:{}",
+        cfg.buf_size,
+        cfg.buf_items,
+        cfg.metrics as u8,
+        cfg.ignore_internal as u8,
+        cleanup.as_nanos() as u64
+    );
+    let setters = if cfg.late_setters {
+        format!("{};hasher;keybuilder;coster;validator;callback", plain)
+    } else {
+        format!("keybuilder;coster;validator;callback;hasher;{}", plain)
+    };
     let eff = format!(
-        " eff_ignore={} eff_cleanup={} cfgcleanup={} eff_counters={} eff_ringcap={} eff_metrics={} cfgmax={} defrej={} late={}",
+        " new_counters={} new_max={} setters={} eff_ignore={} eff_cleanup={} cfgcleanup={} eff_counters={} eff_ringcap={} eff_metrics={} cfgmax={} defrej={} late={}",
+        cfg.num_counters,
+        cfg.max_cost,
+        setters,
         proc_cfg.map_or(cfg.ignore_internal as u8, |p| p.0 as u8),
         proc_cfg.map_or(cleanup.as_nanos() as u64, |p| p.1),
         cleanup.as_nanos() as u64,
